@@ -55,9 +55,11 @@ def handleKernel (fs : List (String × String)) : String :=
       -- U8x4 on SSE4.1, horizontal pass: the lane-accurate models of both kernels of the pass (registers, shuffle
       -- masks taken from the source) are evaluated here and must give the very bytes the real kernels stored
       let lane : Option String :=
-        if p.kind == .u8 ∧ p.n == 4 ∧ ext == "sse4" ∧ pass == "h" ∧ got.size == dw * dh * 4 then Id.run do
+        if p.kind == .u8 ∧ p.n == 4 ∧ (ext == "sse4" ∨ ext == "avx2") ∧ pass == "h" ∧ got.size == dw * dh * 4 then Id.run do
           let q := normalize16 c
-          for y in [0:dh] do
+          -- AVX2: only the four-row blocks are modelled (two rows per 256-bit register, each half = the SSE4.1 row)
+          let last := if ext == "sse4" then dh else dh - dh % 4
+          for y in [0:last] do
             let row : List Int := (List.range (sw * 4)).map fun i => src[(offset + y) * sw * 4 + i]!
             for x in [0:dw] do
               let (start, ks) := q.chunks.getD x (0, #[])
@@ -66,7 +68,7 @@ def handleKernel (fs : List (String × String)) : String :=
                         else SimdU8x4.pixel q.precision row start ks.toList
               for ch in [0:4] do
                 if px.getD ch 0 ≠ got[(y * dw + x) * 4 + ch]! then
-                  return some s!"lane model of the SSE4.1 U8x4 kernels: pixel ({x},{y}) channel {ch}: model={px.getD ch 0} got={got[(y * dw + x) * 4 + ch]!}"
+                  return some s!"lane model of the {ext} U8x4 horizontal kernels: pixel ({x},{y}) channel {ch}: model={px.getD ch 0} got={got[(y * dw + x) * 4 + ch]!}"
           return none
         else none
       -- 8-bit components on SSE4.1 / AVX2 (256-bit instructions = two independent 128-bit halves), vertical pass: every destination row is cut into chunks of 32, 8 and (once) 4
